@@ -83,7 +83,17 @@ RULE = ("GFF3 annotation graphs: DAGs of 1-4 layers and <= 12 lines, every line 
         "non-canonical order, conjoining Hangul jamo, ANGSTROM / OHM / KELVIN SIGN, a CJK compatibility ideograph - and in 1 of 2 "
         "graphs one feature with children exists in BOTH spellings (composed and decomposed) as two features, each named as "
         "Parent by >= 1 line (some lines name both); 3 line orders, path / from_string, ':memory:' / file; the expected ids and "
-        "relatives are those of the INPUT text, code point for code point")
+        "relatives are those of the INPUT text, code point for code point.  "
+        "'imports overlapping in time': 2-4 threads, released together by a threading.Barrier, each run create_db on its own file "
+        "(G.forest_graph: 9-16 genes, 2-4 transcripts each, 3-6 exons per transcript, parts below exons: 150-400 lines, four "
+        "layers, multi-parent lines, shortcuts, dangling values; forward / reversed / shuffled) into its own ':memory:' or file "
+        "database, 2 rounds per case [thorough: 3]; every other case the files share ALL ids and differ in the Parent links; each "
+        "thread reads its database itself (plain sqlite3 dump + children()/parents() of 12 drawn features at levels 1/2/None) and "
+        "every database must be the Parent graph of its own file.  'non-UTF-8 locale': a graph with level-2 pairs, 2-4 ids (one "
+        "with grandchildren first) renamed to words outside ASCII (Latin-1, Cyrillic, CJK, Hebrew, Greek, a non-BMP letter, the euro "
+        "sign) and written percent-encoded into an ASCII-only file, imported by a child process started with LC_ALL/LANG = C or "
+        "POSIX (or LC_CTYPE=C), PYTHONUTF8=0, PYTHONCOERCECLOCALE=0; the child prints a JSON summary (ids, relations table read with "
+        "plain sqlite3, children()/parents() of every feature at every level) that is judged against the model")
 REQUIRED = ["imports", "children()/parents() calls compared with the model", "relation rows compared",
             "level-2 rows compared", "argument-composition queries compared", "iter_by_parent_childs groups compared",
             "line-order pairs with identical relation sets", "dangling Parent values (no error, no phantom)",
@@ -142,7 +152,15 @@ REQUIRED = ["imports", "children()/parents() calls compared with the model", "re
             "non-NFC ids: non-empty children() results of a feature whose id is not in normal form C compared, level=2",
             "non-NFC ids: non-empty parents() results holding a feature whose id is not in normal form C compared",
             "non-NFC ids: imports holding the composed and the decomposed spelling of one name as two features",
-            "non-NFC ids: children() results of the two spellings of one name that differ from each other, both as the model says"]
+            "non-NFC ids: children() results of the two spellings of one name that differ from each other, both as the model says",
+            "threads: rounds of 2-4 imports started together behind a barrier",
+            "threads: rounds in which all create_db calls overlapped in time (start of the last < end of the first)",
+            "threads: imports that ran while another import ran in the same process",
+            "threads: level-2 rows compared", "threads: databases equal to the Parent graph of their own file",
+            "threads: level-2 pairs of another thread's file over ids stored here too, confirmed absent here",
+            "locale: imports under a preferred encoding that is not UTF-8",
+            "locale: stored features with an id outside ASCII (percent-encoded in an ASCII file)",
+            "locale: level-2 rows with an id outside ASCII compared", "locale: databases equal to the Parent graph of their file"]
 REQUIRED_CLASSES = ["ids=word", "ids=hostile", "Parent=comma list", "Parent=repeated keys", "order=children first",
                     "graph: multi-parent", "graph: level-2 pairs", "graph: dangling Parent", "graph: shortcut (level 1 and 2)",
                     "graph: two level-2 paths to one feature", "graph: wide (> 1000 direct children)",
@@ -164,7 +182,9 @@ REQUIRED_CLASSES = ["ids=word", "ids=hostile", "Parent=comma list", "Parent=repe
                     "line ends: given via from_string", "line ends: given as a gzip file (LF and CRLF only)",
                     "ids=non-NFC", "non-NFC id: letter + combining mark", "non-NFC id: conjoining Hangul jamo",
                     "non-NFC id: ANGSTROM SIGN", "non-NFC id: OHM SIGN", "non-NFC id: KELVIN SIGN",
-                    "non-NFC ids: composed and decomposed spelling as two features, each with children"]
+                    "non-NFC ids: composed and decomposed spelling as two features, each with children",
+                    "threads: files with the same ids and other Parent links", "threads: files with ids of their own",
+                    "threads: a ':memory:' target", "threads: a file target"]
 ASSUMPTIONS = [
     "the reference model gvmon/models/hierarchy.py is a faithful reading of the statement: relatives are stored features "
     "only; level 2 = composition of two Parent edges; level None = union",
@@ -210,6 +230,12 @@ ASSUMPTIONS = [
     "'##gff-version 3' line in front and a missing terminator after the last line change nothing either.  Bare CR inside a gzip "
     "file is NOT generated: the unchanged tree splits gzip input on LF only (a known limitation outside this statement: the "
     "whole file is read as one line); gzip input is generated with LF and CRLF",
+    "create_db calls that run at the same time in different threads of one process, each on its own input file and its own "
+    "database (':memory:' or its own path), are independent imports: each database is the Parent graph of ITS file (checked on "
+    "the unchanged tree first: threaded imports work there); a FeatureDB is only used by the thread that made it",
+    "the process locale is no input of the Parent graph: an ASCII-only GFF3 file whose ids are percent-encoded UTF-8 text imports "
+    "without error under a C / POSIX locale with Python's UTF-8 mode off, and children()/parents() are the Parent graph over the "
+    "decoded ids (a child process that reports a UTF-8 preferred encoding anyway is skipped and counted)",
     "interleaved generators: the database is not modified while they are alive; each generator is compared as a multiset "
     "with the same call consumed alone (the statement fixes no order without order_by) and with the model",
 ]
@@ -274,6 +300,10 @@ def runs_of(case):
 
 
 def execute(ctx, case):
+    if case["kind"] == "threads":
+        return execute_threads(ctx, case)
+    if case["kind"] == "locale":
+        return execute_locale(ctx, case)
     g = graph_of(case)
     idless = any(n.get("noid") for n in g["nodes"])
     model = None if idless else model_of(g["nodes"])
@@ -955,6 +985,257 @@ def argument_query(ctx, case, db, q, rel, byid, busy, order, text):
     return True
 
 
+# -- imports overlapping in time inside one process (threads) ---------------------------------------------------------
+def judge_table(ctx, case, info, T, nodes, got_ids, rows):
+    """Stored ids and relation rows (read with plain sqlite3) against the Parent graph of `nodes`; returns the model or None."""
+    rel, lower, upper = model_of(nodes)
+    want_ids = sorted(n["id"] for n in nodes)
+    if sorted(got_ids) != want_ids:
+        ctx.violation(case, dict(info, why=T + "stored features differ from the lines of ITS file",
+                                 unexpected=sorted(set(got_ids) - set(want_ids))[:12], missing=sorted(set(want_ids) - set(got_ids))[:12]))
+        return None
+    table = set(rows)
+    if len(rows) != len(table) or not (lower <= table <= upper):
+        ctx.violation(case, dict(info, why=T + "relations table differs from L1 u L2 of the Parent graph of ITS file",
+                                 n_missing=len(lower - table), n_unexpected=len(table - upper),
+                                 missing=sorted(lower - table)[:12], unexpected=sorted(table - upper)[:12]))
+        return None
+    ctx.mon("relation rows compared", len(rows))
+    ctx.mon("level-2 rows compared", sum(1 for r in rows if r[2] == 2))
+    return rel
+
+
+def judge_answers(ctx, case, info, T, rel, answers):
+    """answers: [(name, x, level, [ids])] of real children()/parents() calls."""
+    for name, x, level, ids in answers:
+        exp = sorted((rel.children if name == "children" else rel.parents)(x, level))
+        ctx.mon("children()/parents() calls compared with the model")
+        if sorted(ids) != exp:
+            ctx.violation(case, dict(info, why=T + "%s(x, level=%r) differs from the Parent graph of ITS file" % (name, level),
+                                     x=x, got=sorted(ids)[:30], expected=exp[:30]))
+            return False
+        if exp:
+            ctx.mon("non-empty relative sets compared")
+    return True
+
+
+def execute_threads(ctx, case):
+    """2-4 threads, started together behind a barrier, each running create_db on its own file into its own database."""
+    import threading
+    import gffutils
+
+    files = case["files"]
+    k = len(files)
+    graphs = [G.forest_graph(p) for p in files]
+    orders = [G.order_of_spec(len(g["nodes"]), spec) for g, spec in zip(graphs, case["orders"])]
+    T = "imports overlapping in time (threads): "
+    for rep in range(case["repeat"]):
+        srcs = [write_input(ctx, G.text_of(g, o), False) for g, o in zip(graphs, orders)]
+        dbfns = [":memory:" if d == "memory" else ctx.tmp(".db") for d in case["dbs"]]
+        barrier = threading.Barrier(k)
+        out = [None] * k
+        spans = [None] * k
+
+        def work(i):
+            import time
+            res = {"error": None}
+            db = None
+            q = random.Random(case["qseed"] * 7 + i)
+            try:
+                barrier.wait(60)
+                t0 = time.time()
+                try:
+                    db = gffutils.create_db(srcs[i], dbfns[i])
+                finally:
+                    spans[i] = (t0, time.time())
+                # a ':memory:' database lives in the connection of this thread: it is read here
+                dump = dbdump.dump_db(db)
+                res["ids"] = [f["id"] for f in dump["features"]]
+                res["rows"] = [tuple(r) for r in dump["relations"]]
+                answers = []
+                ids = [n["id"] for n in graphs[i]["nodes"]]
+                for x in q.sample(ids, min(len(ids), case["nsample"])):
+                    for level in LEVELS:
+                        answers.append(("children", x, level, [f.id for f in db.children(x, level=level)]))
+                        answers.append(("parents", x, level, [f.id for f in db.parents(x, level=level)]))
+                res["answers"] = answers
+            except Exception as ex:
+                res["error"] = ex
+            finally:
+                if db is not None:
+                    try:
+                        db.conn.close()
+                    except Exception:
+                        pass
+            out[i] = res
+
+        sqltrace.reset()
+        threads = [threading.Thread(target=work, args=(i,)) for i in range(k)]
+        try:
+            for t in threads:
+                t.start()
+            for t in threads:
+                t.join(300)
+            if any(t.is_alive() for t in threads):
+                from gvmon.run import Inconclusive
+                raise Inconclusive("C02 threads class: an importing thread did not finish within 300 s")
+            ctx.mon("threads: rounds of 2-4 imports started together behind a barrier")
+            done = [s for s in spans if s]
+            overlap = len(done) >= 2 and max(s[0] for s in done) < min(s[1] for s in done)
+            if overlap:
+                ctx.mon("threads: rounds in which all create_db calls overlapped in time (start of the last < end of the first)")
+            for v in contracts.drain():
+                ctx.violation(case, dict(v, why=T + "contract: " + str(v.get("why"))))
+            for i in range(k):
+                res = out[i]
+                info = {"round": rep, "thread": i, "of": k, "file": files[i], "database": case["dbs"][i],
+                        "text": G.text_of(graphs[i], orders[i])[:400] + "... [G.text_of(G.forest_graph(file), order)]"}
+                if res is None or res["error"] is not None:
+                    ex = res and res["error"]
+                    ctx.violation(case, dict(info, why=T + "create_db raised %s" % type(ex).__name__, error=repr(ex)))
+                    return
+                ctx.mon("imports")
+                ctx.mon("threads: imports that ran while another import ran in the same process")
+                ctx.mon("threads: lines imported", len(orders[i]))
+                rel = judge_table(ctx, case, info, T, graphs[i]["nodes"], res["ids"], res["rows"])
+                if rel is None:
+                    return
+                ctx.mon("threads: level-2 rows compared", sum(1 for r in res["rows"] if r[2] == 2))
+                if not judge_answers(ctx, case, info, T, rel, res["answers"]):
+                    return
+                ctx.mon("threads: databases equal to the Parent graph of their own file")
+                # the level-2 pairs of the OTHER files of this round: both ends stored here, not related that way here
+                own = set(res["rows"])
+                mine = set(res["ids"])
+                for j in range(k):
+                    if j != i and out[j] and out[j].get("rows"):
+                        ctx.mon("threads: level-2 pairs of another thread's file over ids stored here too, confirmed absent here",
+                                sum(1 for r in set(out[j]["rows"]) - own if r[2] == 2 and r[0] in mine and r[1] in mine))
+        finally:
+            for p in srcs + dbfns:
+                if p != ":memory:" and os.path.exists(p):
+                    os.unlink(p)
+
+
+def account_threads(ctx, case):
+    k = len(case["files"])
+    ctx.classes["threads: %d imports at once" % k] += 1
+    same = len({p["ns"] for p in case["files"]}) == 1
+    ctx.classes["threads: files with %s" % ("the same ids and other Parent links" if same else "ids of their own")] += 1
+    if "memory" in case["dbs"]:
+        ctx.classes["threads: a ':memory:' target"] += 1
+    if "file" in case["dbs"]:
+        ctx.classes["threads: a file target"] += 1
+    for i, p in enumerate(case["files"]):
+        ctx.case(("threads", k, sorted(p.items()), case["orders"][i], case["dbs"][i], case["repeat"]), True,
+                 cls="imports overlapping in time (one per thread and file)",
+                 sample={"file": p, "order": case["orders"][i], "threads": k, "db": case["dbs"][i], "repeat": case["repeat"]})
+
+
+# -- the import in a child process whose locale is not UTF-8 ----------------------------------------------------------------
+CHILD = r"""
+import json, os, sys, locale, sqlite3
+real = sys.stderr
+sys.stderr = open(os.devnull, "w")
+out = {"encoding": locale.getpreferredencoding(False), "utf8_mode": sys.flags.utf8_mode, "fs": sys.getfilesystemencoding()}
+try:
+    import logging, warnings
+    warnings.simplefilter("ignore")
+    import gffutils
+    logging.disable(logging.CRITICAL)
+    out["gffutils"] = os.path.realpath(gffutils.__file__)
+    src, dbfn = sys.argv[1], sys.argv[2]
+    db = gffutils.create_db(src, dbfn)
+    out["created"] = True
+    db.conn.commit()
+    con = sqlite3.connect(dbfn)
+    out["ids"] = [r[0] for r in con.execute("SELECT id FROM features")]
+    out["rows"] = [list(r) for r in con.execute("SELECT parent, child, level FROM relations")]
+    con.close()
+    ans = []
+    for x in out["ids"]:
+        for level in (1, 2, None):
+            ans.append(["children", x, level, [f.id for f in db.children(x, level=level)]])
+            ans.append(["parents", x, level, [f.id for f in db.parents(x, level=level)]])
+    out["answers"] = ans
+except BaseException as ex:
+    import traceback
+    out["error"] = type(ex).__name__
+    out["detail"] = ascii(ex)
+    out["traceback"] = ascii(traceback.format_exc()[-1500:])
+sys.stdout.write(json.dumps(out))
+"""
+LOCALE_ENVS = {"C": {"LC_ALL": "C", "LANG": "C"}, "POSIX": {"LC_ALL": "POSIX", "LANG": "POSIX"},
+               "C (LC_CTYPE only)": {"LC_CTYPE": "C", "LANG": "C"}}
+
+
+def execute_locale(ctx, case):
+    import subprocess
+    import sys
+
+    g = case["graph"]
+    order = case["order"]
+    text = G.ascii_text_of(g, order)
+    nodes = g["nodes"]
+    T = "import in a child process with a non-UTF-8 locale (%s): " % case["locale"]
+    src = ctx.tmp(".gff3")
+    dbfn = ctx.tmp(".db")
+    with open(src, "wb") as fh:
+        fh.write(text.encode("ascii"))
+    repo = os.path.realpath(os.environ.get("GFFUTILS_REPO", "/repo"))
+    env = {"PYTHONUTF8": "0", "PYTHONCOERCECLOCALE": "0", "PYTHONPATH": os.pathsep.join([repo] + [p for p in os.environ.get("PYTHONPATH", "").split(os.pathsep) if p and os.path.realpath(p) != repo]),
+           "PYTHONDONTWRITEBYTECODE": "1", "PYTHONHASHSEED": "0", "PATH": os.environ.get("PATH", "/usr/bin:/bin"),
+           "TMPDIR": tempfile.gettempdir(), "HOME": os.environ.get("HOME", "/tmp")}
+    env.update(LOCALE_ENVS[case["locale"]])
+    info = {"text": text, "order": order, "environment": dict(LOCALE_ENVS[case["locale"]], PYTHONUTF8="0", PYTHONCOERCECLOCALE="0")}
+    try:
+        try:
+            proc = subprocess.run([sys.executable, "-c", CHILD, src, dbfn], env=env, stdout=subprocess.PIPE,
+                                  stderr=subprocess.PIPE, timeout=120)
+            out = __import__("json").loads(proc.stdout.decode("ascii"))
+        except Exception as ex:
+            from gvmon.run import Inconclusive
+            raise Inconclusive("C02 locale class: the child process gave no JSON summary (%r)" % (ex,))
+        ctx.mon("locale: child processes started with a C/POSIX locale and UTF-8 mode off")
+        if "utf" in out["encoding"].lower().replace("-", "") or out["utf8_mode"]:
+            ctx.mon("locale: child processes whose preferred encoding was UTF-8 after all (not judged)")
+            ctx.skip("the child process reports a UTF-8 preferred encoding under %s" % case["locale"])
+            return
+        if "gffutils" in out and not out["gffutils"].startswith(repo + os.sep):
+            from gvmon.run import Inconclusive
+            raise Inconclusive("C02 locale class: the child imported gffutils from %s" % out["gffutils"])
+        ctx.mon("locale: imports under a preferred encoding that is not UTF-8 (%s)" % out["encoding"])
+        ctx.mon("locale: imports under a preferred encoding that is not UTF-8")
+        if out.get("error"):
+            ctx.violation(case, dict(info, why=T + ("create_db raised %s" if not out.get("created") else "reading the database raised %s") % out["error"],
+                                     error=out.get("detail"), traceback=out.get("traceback"), encoding=out["encoding"]))
+            return
+        ctx.mon("imports")
+        nonascii = {n["id"] for n in nodes if not n["id"].isascii()}
+        ctx.mon("locale: stored features with an id outside ASCII (percent-encoded in an ASCII file)", len(nonascii))
+        rel = judge_table(ctx, case, info, T, nodes, out["ids"], [tuple(r) for r in out["rows"]])
+        if rel is None:
+            return
+        l2 = [r for r in out["rows"] if r[2] == 2]
+        ctx.mon("locale: level-2 rows compared", len(l2))
+        ctx.mon("locale: level-2 rows with an id outside ASCII compared", sum(1 for r in l2 if r[0] in nonascii or r[1] in nonascii))
+        if not judge_answers(ctx, case, info, T, rel, [tuple(a) for a in out["answers"]]):
+            return
+        ctx.mon("locale: databases equal to the Parent graph of their file")
+    finally:
+        for p in (src, dbfn, dbfn + "-journal"):
+            if os.path.exists(p):
+                os.unlink(p)
+
+
+def account_locale(ctx, case):
+    g = case["graph"]
+    ctx.classes["locale: " + case["locale"]] += 1
+    ctx.case(("locale", G.canonical(g), case["order"], case["locale"]), True,
+             cls="imports in a child process with a non-UTF-8 locale",
+             sample={"locale": case["locale"], "text": G.ascii_text_of(g, case["order"])[:600]})
+
+
 def classify(ctx, case):
     g = graph_of(case)
     nodes = H.resolve_ids(g["nodes"], range(len(g["nodes"])))     # the shape of the graph is the same for every order
@@ -1308,6 +1589,32 @@ def run(ctx):
                 "db": "file" if rng.random() < 0.15 else "memory", "input": "string" if rng.random() < 0.2 else "path"}
         execute(ctx, case)
         account(ctx, case)
+    # 12. imports overlapping in time inside one process: 2-4 threads behind a barrier, each with its own file and database
+    for i in range(ctx.budget(8, 64)):
+        k = rng.choice([2, 2, 3, 4])
+        ns = "f%d" % rng.randrange(1000) if i % 2 == 0 else None      # every other case: the SAME ids with other Parent links
+        files = [G.forest_params(rng, ns) for _ in range(k)]
+        case = {"kind": "threads", "ids": "word", "files": files, "qseed": rng.randrange(10 ** 9), "nsample": 12,
+                "orders": [rng.choice([["forward"], ["reverse"], ["shuffle", rng.randrange(10 ** 6)]]) for _ in range(k)],
+                "dbs": [rng.choice(["memory", "file"]) for _ in range(k)], "repeat": 3 if thorough else 2}
+        execute(ctx, case)
+        account_threads(ctx, case)
+    # 13. the import in a child process with a C / POSIX locale (UTF-8 mode off) of an ASCII-only file whose ids are
+    #     percent-encoded non-ASCII text, three or more levels
+    for i in range(ctx.budget(4, 48)):
+        for _ in range(200):
+            g = G.graph(rng)
+            if H.Relatives(*reversed((lambda n: ([x["id"] for x in n], H.gff3_triples(n)[0]))(g["nodes"]))).n_level2() \
+                    and G.make_nonascii(rng, g) >= 2:
+                break
+        else:
+            ctx.mon("generator: no graph with level-2 pairs and non-ASCII ids drawn (not imported)")
+            continue
+        n = len(g["nodes"])
+        case = {"kind": "locale", "ids": "non-ASCII, percent-encoded", "graph": g, "order": rng.choice(G.sample_orders(rng, n, 3)),
+                "locale": list(LOCALE_ENVS)[i % len(LOCALE_ENVS)] if i % 4 != 3 else "C"}
+        execute(ctx, case)
+        account_locale(ctx, case)
     ctx.mon("make_query contract evaluations", contracts.EVALS["helpers.make_query"])
 
 
@@ -1344,5 +1651,8 @@ MANIFEST = {
             "Held = no executed import disagreed.",
     "note": "Trusted: gvmon/models/hierarchy.py. The hostile-id class (blanks at the ends, U+0085/U+00A0, escaped TAB/LF) is "
             "kept apart: its violations are prefixed 'hostile-id class:'. update() is exercised only as 'more GFF3 lines with new ids'; "
-            "other update()/delete() histories are C10's. Threads are not used (two creators overlap only through a transform).",
+            "other update()/delete() histories are C10's. Two more classes vary the process: 2-4 create_db calls run at the same time in "
+            "threads of one process (own file, own database each; every other case all files share their ids and differ in the links), "
+            "and the import runs in a child process with a C/POSIX locale and UTF-8 mode off on an ASCII-only file whose ids are "
+            "percent-encoded non-ASCII text; every database must be the Parent graph of its own file.",
 }
